@@ -474,7 +474,9 @@ Fixpoint read_union_loop (g : nat) (fs : list (N * ufield)) (cm : list bytes) (t
                           u_struct := Some {| s_name := s_name st; s_comment := join_nl cm; s_fields := s_fields st; s_opcode := 0; s_readonly := false |};
                           u_tags := tags; u_depmsg := depmsg; u_dep := dep |}) ;;
           b3 <- p_next ;; if negb b3 then fail else
-          skip_eol_comments g' ;;; opt_newline ;;;
+          k3 <- p_kind ;;
+          (* the member's reader may have consumed its close curly already: then this advance read what ends the curly's line *)
+          (if N.eqb k3 kNewline || N.eqb k3 kLineC then ret tt else skip_eol_comments g' ;;; opt_newline) ;;;
           read_union_loop g' (fs ++ [(i, uf)]) [] [] [] false
       end
     else if N.eqb k kOpenSq then
